@@ -173,6 +173,39 @@ func (s *MemCachedStore) GetStorageChanges() map[string][]byte {
 func (s *MemCachedStore) SeekAsync(ctx context.Context, rng SeekRange, cutPrefix bool) chan KeyValue {
 	res := make(chan KeyValue)
 	ps, memRes := s.prepareSeekMemSnapshot(rng)
+	// Private layers below are not locked and are changed by their owner as soon
+	// as it goes on (a layer is merged into the lower one when a contract call
+	// returns), so they have to be captured right now, not when the goroutine
+	// gets its time slice: the result must not depend on the scheduler.
+	if s.private && rng.SearchDepth != 1 {
+		var seen map[string]struct{}
+		for {
+			lower, ok := ps.(*MemCachedStore)
+			if !ok || !lower.private {
+				break
+			}
+			if seen == nil {
+				seen = make(map[string]struct{}, len(memRes))
+				for i := range memRes {
+					seen[string(memRes[i].Key)] = struct{}{}
+				}
+			}
+			var lowerRes []KeyValueExists
+			ps, lowerRes = lower.prepareSeekMemSnapshot(rng)
+			for i := range lowerRes {
+				if _, ok := seen[string(lowerRes[i].Key)]; !ok {
+					seen[string(lowerRes[i].Key)] = struct{}{}
+					memRes = append(memRes, lowerRes[i])
+				}
+			}
+			if rng.SearchDepth > 1 {
+				rng.SearchDepth--
+				if rng.SearchDepth == 1 {
+					break
+				}
+			}
+		}
+	}
 	go func() {
 		performSeek(ctx, ps, memRes, rng, cutPrefix, func(k, v []byte) bool {
 			select {
